@@ -58,7 +58,7 @@ def replay(case):
     S, M = case["S"], case["M"]
     L = np.array(case["L"], dtype=float) / S
     d = len(L)
-    detail = {k: case[k] for k in ("id", "L", "S", "M", "types", "frames", "sel")}
+    detail = {k: case[k] for k in ("id", "L", "S", "M", "types", "frames", "sel", "tys")}
     if not case["decided"]:
         return ("tie", "numofq", None, False)
     vecs = np.array(case["vecs"], dtype=int).reshape(-1, d)
@@ -67,12 +67,16 @@ def replay(case):
     frames = [np.array(f, dtype=float) * L[np.newaxis, :] / M for f in case["frames"]]
     tmp = tempfile.mkdtemp(prefix="verif_c04_")
     try:
-        snaps = common.make_snapshots(frames, case["types"], np.diag(L))
+        from PyMatterSim.reader.reader_utils import Snapshots
+        ss = [common.make_snapshot(f, case["tys"][i], np.diag(L), i) for i, f in enumerate(frames)]
+        snaps = Snapshots(nsnapshots=len(ss), snapshots=ss)
         csv = os.path.join(tmp, "sq.csv")
         sel = case["sel"]
         try:
             if sel["kind"] == "list":
-                obj = sq(snaps, qvector=vecs.copy(), outputfile=csv)
+                # an explicit list is used verbatim: qrange / onlypositive are documented to apply only without one
+                extra = ({}, {"onlypositive": True}, {"qrange": 3.0, "onlypositive": "x"})[case.get("id", 0) % 3]
+                obj = sq(snaps, qvector=vecs.copy(), outputfile=csv, **extra)
             else:
                 obj = sq(snaps, qrange=sel["qn"] / sel["qd"], onlypositive=opt_arg(sel["opt"]), outputfile=csv)
             df = obj.getresults()
@@ -137,7 +141,15 @@ def gen_records(rng, n):
             t = rng.randint(2, 12)
             qn = int((t + rng.random()) * 314.16 * S / max(L))
             sel = {"kind": "range", "qn": qn, "qd": 100, "opt": rng.choice(["F", "T", "x", "y", "z"])}
-        recs.append({"id": 100000 + len(recs), "L": L, "S": S, "M": M, "types": types, "frames": frames, "sel": sel})
+        rec = {"id": 100000 + len(recs), "L": L, "S": S, "M": M, "types": types, "frames": frames, "sel": sel}
+        if nf > 1 and rng.random() < 0.4:      # species labels move between particles, composition fixed
+            tys = [types]
+            for _ in range(nf - 1):
+                t = types[:]
+                rng.shuffle(t)
+                tys.append(t)
+            rec["tys"] = tys
+        recs.append(rec)
     return recs
 
 
@@ -173,19 +185,6 @@ def run(tier, replay=None):
     if replay:
         print(json.dumps(common.load_replay(replay)["case"], indent=1)[:5000])
         return 0
-    for mode in ("wavevec", "grid", "hash"):
-        gen = mode != "grid" or True
-        g = run_tlc_sharded("MC_DensityModes", dict(constants={"Tier": tier, "Mode": mode, "Gen": gen}, invariants=INVS + ["Emit"]),
-                            nshards=(4 if mode == "wavevec" else None))
-        require_model_ok(g, mode)
-        chk.add_tlc(g, mode)
-        if not g.cases:
-            raise common.MachineryError(f"no cases emitted in mode {mode}")
-        cases = g.cases
-        if mode == "grid" and tier == "quick":
-            cases = common.sample(cases, 500, salt=4)
-        collect(chk, cases, mode)
-    chk.exhaustive = tier == "thorough"
     rng = random.Random(common.SEED * 7919 + 4)
     recs = gen_records(rng, 60 if tier == "quick" else 800)
     tmp = tempfile.mkdtemp(prefix="verif_c04_")
@@ -194,13 +193,31 @@ def run(tier, replay=None):
         with open(path, "w") as f:
             for rec in recs:
                 f.write(json.dumps(rec, separators=(",", ":")) + "\n")
-        g = run_tlc_sharded("MC_DensityModes", dict(constants={"Tier": tier, "Mode": "trace", "Gen": True}, invariants=INVS + ["Emit"]),
-                            env={"TRACE_FILE": path})
-        require_model_ok(g, "trace")
-        chk.add_tlc(g, "trace (direction B)")
-        if len(g.cases) != len(recs):
-            raise common.MachineryError(f"trace mode: {len(g.cases)} cases for {len(recs)} records")
-        collect(chk, g.cases, "trace")
+
+        def tlc(mode):
+            return run_tlc_sharded("MC_DensityModes",
+                                   dict(constants={"Tier": tier, "Mode": mode, "Gen": True}, invariants=INVS + ["Emit"]),
+                                   nshards=(4 if mode == "wavevec" else 8 if tier == "quick" else None),
+                                   env=({"TRACE_FILE": path} if mode == "trace" else None))
+
+        # the four models are independent: their TLC runs overlap (JVM start dominates in the quick tier)
+        import concurrent.futures as cf
+        modes = ("wavevec", "grid", "hash", "trace")
+        with cf.ThreadPoolExecutor(max_workers=(4 if tier == "quick" else 1)) as ex:
+            results = dict(zip(modes, ex.map(tlc, modes)))
+        for mode in modes:
+            g = results[mode]
+            require_model_ok(g, mode)
+            chk.add_tlc(g, mode if mode != "trace" else "trace (direction B)")
+            if not g.cases:
+                raise common.MachineryError(f"no cases emitted in mode {mode}")
+            cases = g.cases
+            if mode == "grid" and tier == "quick":
+                cases = common.sample(cases, 500, salt=4)
+            if mode == "trace" and len(g.cases) != len(recs):
+                raise common.MachineryError(f"trace mode: {len(g.cases)} cases for {len(recs)} records")
+            collect(chk, cases, mode)
+        chk.exhaustive = tier == "thorough"
     finally:
         shutil.rmtree(tmp, ignore_errors=True)
     return chk.finish()
